@@ -364,7 +364,7 @@ func scanMapRangeOrder(P *Program, sp ScanSpec) []*OblResult {
 		}
 	}
 	var out []*OblResult
-	var offenders []string
+	var offenders, okFuncs []string
 	for _, fn := range stateMachineFuncs(P, sp) {
 		var ranges []*ssa.Range
 		sorts := false
@@ -390,9 +390,8 @@ func scanMapRangeOrder(P *Program, sp ScanSpec) []*OblResult {
 		}
 		name := CanonName(fn)
 		oname := sp.Name + "." + name
-		if why, ok := reviewed[name]; ok {
-			out = append(out, scanResult(oname, "F8", true, "reviewed: "+why))
-			continue
+		if _, ok := reviewed[name]; ok {
+			continue // reported below, whether or not the function still iterates over a map
 		}
 		lt := NewExec(P, DefaultConfig()).loopsOf(fn)
 		bad := ""
@@ -457,14 +456,19 @@ func scanMapRangeOrder(P *Program, sp ScanSpec) []*OblResult {
 			out = append(out, scanResult(oname, "F8", false, "map iteration whose effect may depend on the order: "+bad))
 			offenders = append(offenders, name+" ("+bad+")")
 		} else {
-			out = append(out, scanResult(oname, "F8", true, "collect-then-sort or commutative body"))
+			okFuncs = append(okFuncs, name)
 		}
+	}
+	// a reviewed function keeps its obligation for as long as it is listed: moving its iteration into
+	// a helper (whose shape is then judged on its own) does not make the obligation disappear
+	for _, name := range sortedKeys(reviewed) {
+		out = append(out, scanResult(sp.Name+"."+name, "F8", true, "reviewed: "+reviewed[name]))
 	}
 	// the census as a whole: an obligation that exists (and holds) on every tree, so that a map
 	// iteration appearing in a function that had none before fails something the ledger knows
 	sort.Strings(offenders)
 	out = append(out, scanResult(sp.Name+".every_map_iteration_in_block_execution", "F8", len(offenders) == 0,
-		fmt.Sprintf("map iterations whose effect may depend on the order: %v", offenders)))
+		fmt.Sprintf("map iterations whose effect may depend on the order: %v; collect-then-sort or commutative bodies: %v", offenders, okFuncs)))
 	return out
 }
 
